@@ -96,6 +96,8 @@ def write_replay(prop, name, payload):
     return os.path.relpath(path, VERIF)
 
 
+from .stop import StopCheck
+
 class _Runaway(MachineryError):
     pass
 
@@ -110,7 +112,16 @@ def _guard_on(tier):
         pass
     limit = int(os.environ.get("VERIF_WALL_S", "1500" if tier == "quick" else "10800"))
 
+    fired = []
+
     def _alarm(signum, frame):
+        if fired:
+            # the first alarm's exception was swallowed (or the loop never returns to Python code that lets it
+            # propagate): leave at once, as a machinery error, rather than hang for ever
+            print(f"MACHINERY-ERROR: the check ran longer than {limit} s (wall clock) and did not stop when asked to", flush=True)
+            os._exit(2)
+        fired.append(1)
+        signal.alarm(120)
         raise _Runaway(f"the check ran longer than {limit} s (wall clock) — hang or runaway loop under the harness")
     try:
         signal.signal(signal.SIGALRM, _alarm)
@@ -233,6 +244,8 @@ def _run(prop, tier, seed, replay, no_build, t0):
     _guard_on(tier)
     try:
         mod.check(ctx)
+    except StopCheck as e:
+        ctx.notes.append(f"exploration stopped early: {e}")
     finally:
         _guard_off()
 
